@@ -263,6 +263,8 @@ func c06Bases() [][]c06File {
 		{{"a b.sql", "A;\n"}, {"c.sql", "h1:x\n"}},
 		{{"1.sql", "-- atlas:sum ignore x\nA;\n"}, {"2.sql", "-- atlas:sum  ignore\nB;\n"}, {"3.sql", "-- foo atlas:sum ignore\nC;\n"}},
 		{},
+		// names holding characters that mean something to fmt / regexp / shells / paths
+		{{"1_discount_50%_off.sql", "A;\n"}, {"2_%s_%d_%v.sql", "B;\n"}, {"3_a$b^c(d)[e]{f}+g?.sql", "C;\n"}, {"4_tab\there.sql", "D;\n"}},
 	}
 }
 
